@@ -1,9 +1,131 @@
-(** C12 — pinned statements. *)
-From TU Require Import Base C12_Model.
+(** C12 — pinned statements. Nothing but statements, [exact], and assumption audits. *)
+From TU Require Import Base C12_Model C12_Spec C12_Matrix C12_Trace C12_Norm C12_Proofs.
 From Coq Require Import QArith.
+Open Scope nat_scope.
 
-(** KF2: under spaces_insert_delete_only the normalised distance can exceed 1. *)
-Theorem norm_le_1_sid_refuted : exists a b,
-  (1 < distance (Flags false true) true a b)%Q.
-Proof. exists [[32%N]], [[120%N]]. vm_compute. reflexivity. Qed.
+(** ** distance = the reference metric.  [Align fl a b n]: an alignment of cost [n]
+    (Levenshtein for [with_swap = false], optimal string alignment for
+    [with_swap = true], no whitespace substituted or transposed under [sid]). *)
+Theorem dist_achieved : forall fl a b, Align fl a b (dist fl a b).
+Proof. exact dist_achieved_l. Qed.
+Print Assumptions dist_achieved.
+
+Theorem dist_minimal : forall fl a b n, Align fl a b n -> dist fl a b <= n.
+Proof. exact dist_minimal_l. Qed.
+Print Assumptions dist_minimal.
+
+(** every cell of the iteratively built matrix is the distance of the prefixes *)
+Theorem cell_prefix : forall fl a b i j, i <= length a -> j <= length b ->
+  fst (cell (matrix fl a b) i j) = dist fl (firstn i a) (firstn j b).
+Proof. exact cell_dist. Qed.
+Print Assumptions cell_prefix.
+
+(** ... and both matrices (cost and op, with the tie-breaking) are the recurrence [Dc] *)
+Theorem cell_recurrence : forall fl a b i j, i <= length a -> j <= length b ->
+  cell (matrix fl a b) i j = Dc fl (rev (firstn i a)) (rev (firstn j b)).
+Proof. exact cell_prefix_l. Qed.
+Print Assumptions cell_recurrence.
+
+(** prefix distance = minimum over all prefixes of [b] *)
+Theorem prefix_dist_min : forall fl a b,
+  (exists k, k <= length b /\ prefix_dist fl a b = dist fl a (firstn k b))
+  /\ (forall k, prefix_dist fl a b <= dist fl a (firstn k b)).
+Proof. exact prefix_dist_min_l. Qed.
+Print Assumptions prefix_dist_min.
+
+(** ** operations: never the error value (no panic, no underflow, fuel suffices);
+    sorted; transforms [a] into [b] using only permitted operations; length = distance *)
+Theorem ops_total : forall fl a b, exists ops, operations fl a b = Some ops.
+Proof. exact ops_total_l. Qed.
+Print Assumptions ops_total.
+
+Theorem ops_sorted : forall fl a b ops, operations fl a b = Some ops -> sortedb ops = true.
+Proof. exact ops_sorted_l. Qed.
+Print Assumptions ops_sorted.
+
+Theorem ops_apply : forall fl a b ops, operations fl a b = Some ops -> script_ok fl ops a b = true.
+Proof. exact ops_apply_l. Qed.
+Print Assumptions ops_apply.
+
+Theorem ops_length : forall fl a b ops, operations fl a b = Some ops -> length ops = dist fl a b.
+Proof. exact ops_length_l. Qed.
+Print Assumptions ops_length.
+
+(** what [script_ok] means: a script that applies is an alignment costing its length,
+    it is sorted, and no script that applies is shorter than the distance *)
+Theorem script_is_alignment : forall fl ops a b, script_ok fl ops a b = true -> Align fl a b (length ops).
+Proof. exact script_is_alignment_l. Qed.
+Print Assumptions script_is_alignment.
+
+Theorem script_ok_sorted : forall fl ops a b, script_ok fl ops a b = true -> sortedb ops = true.
+Proof. exact script_ok_sorted_l. Qed.
+Print Assumptions script_ok_sorted.
+
+Theorem ops_minimal : forall fl ops a b, script_ok fl ops a b = true -> dist fl a b <= length ops.
+Proof. exact script_min. Qed.
+Print Assumptions ops_minimal.
+
+(** ** normalisation over Q (repaired divisor max(len, 1)) *)
+Theorem norm_def : forall fl a b,
+  (distance fl true a b * inject_Z (Z.of_nat (Nat.max (Nat.max (length a) (length b)) 1))
+   == inject_Z (Z.of_nat (dist fl a b)))%Q.
+Proof. exact distance_normalised. Qed.
+Print Assumptions norm_def.
+
+Theorem norm_le_1 : forall fl a b, sid fl = false ->
+  (0 <= distance fl true a b)%Q /\ (distance fl true a b <= 1)%Q.
+Proof. exact norm_le_1_ll. Qed.
+Print Assumptions norm_le_1.
+
+Theorem norm_le_2 : forall fl a b, (0 <= distance fl true a b)%Q /\ (distance fl true a b <= 2)%Q.
+Proof. exact norm_le_2_ll. Qed.
+Print Assumptions norm_le_2.
+
+(** KF2: under spaces_insert_delete_only the normalised distance can exceed 1 (" " vs "x"). *)
+Theorem norm_le_1_sid_refuted : exists a b, (1 < distance (Flags false true) true a b)%Q.
+Proof. exact kf2_witness. Qed.
 Print Assumptions norm_le_1_sid_refuted.
+
+(** equal texts, including two empty ones (D5), have distance 0 — and only those *)
+Theorem norm_zero : forall fl nm a b, (distance fl nm a b == 0)%Q <-> a = b.
+Proof. exact norm_zero_iff_l. Qed.
+Print Assumptions norm_zero.
+
+Theorem pnorm_range : forall fl a b, (0 <= prefix_distance fl true a b <= 1)%Q.
+Proof. exact pnorm_range_l. Qed.
+Print Assumptions pnorm_range.
+
+(** ** the executable statement holds of the model's own output (outside the KF2 class),
+    and an output that passes it carries a minimal alignment *)
+Theorem check_run : forall v, no_kf2 v -> check_C12 v (run_C12 v) = true.
+Proof. exact check_run_l. Qed.
+Print Assumptions check_run.
+
+Theorem check_sound : forall v out, check_C12 v out = true ->
+  let ops := v_list v_edit (v_nth 2 out) in
+  sortedb ops = true /\ Align (in_flags v) (in_a v) (in_b v) (length ops)
+  /\ length ops = dist (in_flags v) (in_a v) (in_b v).
+Proof. exact check_sound_script. Qed.
+Print Assumptions check_sound.
+
+(** ** non-vacuity *)
+Definition ex_s (l : list N) : list cluster := singletons l.
+(** "ab" -> "ba": one transposition with swaps, two edits without *)
+Example align_swap : Align (Flags true false) (ex_s [97;98]%N) (ex_s [98;97]%N) 1.
+Proof. apply A_swap; [reflexivity|reflexivity|constructor]. Qed.
+Example dist_swap : (dist (Flags true false) (ex_s [97;98]%N) (ex_s [98;97]%N),
+                     dist (Flags false false) (ex_s [97;98]%N) (ex_s [98;97]%N)) = (1, 2).
+Proof. vm_compute. reflexivity. Qed.
+(** "a b" -> "ab c" under sid *)
+Example ops_example :
+  operations (Flags true true) (ex_s [97;32;98]%N) (ex_s [97;98;32;99]%N)
+  = Some [(EInsert, 1, 1); (EReplace, 2, 3)].
+Proof. vm_compute. reflexivity. Qed.
+Example script_example :
+  script_ok (Flags true true) [(EInsert, 1, 1); (EReplace, 2, 3)]
+            (ex_s [97;32;98]%N) (ex_s [97;98;32;99]%N) = true.
+Proof. vm_compute. reflexivity. Qed.
+(** an input outside the KF2 class with both flags set *)
+Example no_kf2_example :
+  no_kf2 (L [I 0; I 1; I 1; I 1; L [L [I 97]; L [I 32]]; L [L [I 32]; L [I 97]]; I 1; I 1])%Z.
+Proof. intros _ _. vm_compute. repeat constructor. Qed.
